@@ -1,6 +1,7 @@
 //! C02 Repair of any truncated archive is sound (fault enumeration over generated archives).
 use super::Check;
 use crate::consts::*;
+use crate::data::{self, DataClass};
 use crate::fault;
 use crate::prog::{self, Arch, ProgParams, Program, RepairErr, RepairOut};
 use crate::report::{Report, Stats};
@@ -19,7 +20,7 @@ compressed-block / record edges, end marker, footers) plus 200 spread lengths; e
 and (for encrypted archives) unauthenticated mode into a layer-less archive that is re-read with the normal reader. \
 Oracle: no panic; n >= header length => repair returns Ok and its output opens; every output name is an original name; \
 every output content is a prefix of the original; files not reported unfinished are complete and byte-identical; status \
-EndOfOriginalArchiveData => all files present and complete. The same on archives encoded by the independent implementation of FORMAT.md (stage foreign-truncations). Non-trivial = header_len < n < len; distinct = (archive hash, n, mode)";
+EndOfOriginalArchiveData => all files present and complete. The same on archives encoded by the independent implementation of FORMAT.md (stage foreign-truncations), and on archives of one file whose bytes, from a compression-block boundary on, are complete correctly hashed records of files the archive does not hold, with the compressed end of the block placed at chosen offsets of the repair reader's input buffer (stage look-alike: a repair that loses its place must not output those files). Non-trivial = header_len < n < len; distinct = (archive hash, n, mode)";
 
 #[derive(Clone, Debug, Serialize, Deserialize)]
 pub struct Case {
@@ -144,6 +145,130 @@ fn foreign(c: &super::c06::BackCase, st: &mut Stats) -> Result<(), String> {
     Ok(())
 }
 
+/// Contents that would be taken for archive records if the repair ever lost its place in the stream: one file whose
+/// bytes are incompressible up to a block boundary of the compression layer and, from there on, are two complete,
+/// correctly hashed records sequences of files the archive does not hold ("phantom"). The length of a leading run
+/// of zeroes is adjusted (the archive is built up to five times) until the compressed sizes of the blocks before
+/// that boundary leave a chosen remainder modulo the repair reader's input buffer, so that the end of a compressed
+/// block falls at the start, at the end or just inside a buffer refill.
+#[derive(Clone, Debug, Serialize, Deserialize)]
+pub struct LookCase {
+    pub layers: u8,
+    pub level: u8,
+    pub boundary: u8,
+    pub delta: i8,
+    pub target: u8,
+    pub cfg: u8,
+    pub tail: u16,
+    pub seed: u32,
+}
+
+fn look_case() -> impl Strategy<Value = LookCase> {
+    (2u8..=3, 0u8..=5, 1u8..=3, -2i8..=2, any::<u8>(), any::<u8>(), 0u16..600, any::<u32>()).prop_map(|(layers, level, boundary, delta, target, cfg, tail, seed)| LookCase {
+        layers,
+        level,
+        boundary: if SCALED { boundary } else { 1 },
+        // most of the time exactly at the boundary
+        delta: if seed % 3 == 0 { delta } else { 0 },
+        target,
+        cfg,
+        tail,
+        seed,
+    })
+}
+
+fn phantom_records() -> Vec<u8> {
+    let mut o = Vec::new();
+    for (id, name, data) in [(7u64, "phantom", &b"content of a file that was never archived"[..]), (8u64, "phantom2", &b""[..])] {
+        o.push(0x00);
+        o.extend_from_slice(&id.to_le_bytes());
+        o.extend_from_slice(&(name.len() as u64).to_le_bytes());
+        o.extend_from_slice(name.as_bytes());
+        o.push(0x01);
+        o.extend_from_slice(&id.to_le_bytes());
+        o.extend_from_slice(&(data.len() as u64).to_le_bytes());
+        o.extend_from_slice(data);
+        o.push(0xFF);
+        o.extend_from_slice(&id.to_le_bytes());
+        o.extend_from_slice(&util::sha256(data));
+    }
+    o.push(0xFE);
+    o
+}
+
+fn look_alike(c: &LookCase, st: &mut Stats) -> Result<(), String> {
+    use std::io::Write;
+    let keys = prog::keys_for(c.seed as u64, 1, 0);
+    let secrets: Vec<[u8; 32]> = keys.recipients.iter().map(|k| k.to_bytes()).collect();
+    // FileStart of "a" (1 + 8 + 8 + 1 bytes) and the header of its content record (1 + 8 + 8) precede the content
+    let lead_total = (c.boundary as usize * BLOCK - 35).saturating_add_signed(c.delta as isize);
+    let want = [0usize, 1, 2, FAIL_SAFE_BUFFER - 1, c.seed as usize % FAIL_SAFE_BUFFER][(c.target % 5) as usize];
+    let mut zeros = 32 + (c.seed as usize >> 8) % (lead_total / 2);
+    let mut reached = false;
+    let mut built: Option<(Vec<u8>, Vec<u8>)> = None;
+    for _ in 0..5 {
+        let mut content = vec![0u8; zeros.min(lead_total)];
+        content.extend_from_slice(&data::gen(DataClass::Random, c.seed as u64, lead_total - content.len()));
+        content.extend_from_slice(&phantom_records());
+        content.extend_from_slice(&data::gen(DataClass::Random, c.seed as u64 ^ 0x77, c.tail as usize));
+        let cfg = prog::writer_config_via(c.cfg, c.layers, c.level, &keys.publics);
+        let r = util::catch(|| -> Result<Vec<u8>, String> {
+            let mut w = mla::ArchiveWriter::from_config(Vec::new(), cfg).map_err(|e| format!("{e:?}"))?;
+            w.add_file("a", content.len() as u64, &content[..]).map_err(|e| format!("{e:?}"))?;
+            w.finalize().map_err(|e| format!("{e:?}"))?;
+            let mut o = w.into_raw();
+            o.flush().ok();
+            Ok(o)
+        });
+        let bytes = match r {
+            Ok(Ok(b)) => b,
+            _ => {
+                st.label("skipped: writer failed (judged by C01)");
+                return Ok(());
+            }
+        };
+        let (_, _, _, si, _) = crate::refimpl::decode_layers(&bytes, &secrets, crate::refimpl::Params::current()).map_err(|e| format!("HARNESS: look-alike archive does not decode: {e}"))?;
+        let si = si.ok_or("HARNESS: no compression layer")?;
+        let sum: usize = si.compressed_sizes.iter().take(c.boundary as usize).map(|&x| x as usize).sum();
+        let have = sum % FAIL_SAFE_BUFFER;
+        built = Some((bytes, content));
+        if std::env::var("VERIF_C02_DEBUG").is_ok() {
+            eprintln!("LOOK level={} layers={} boundary={} zeros={zeros} sum={sum} have={have} want={want}", c.level, c.layers, c.boundary);
+        }
+        if have == want {
+            reached = true;
+            break;
+        }
+        // one random byte less and one zero more shorten the compressed block by about one byte
+        zeros += (have + FAIL_SAFE_BUFFER - want) % FAIL_SAFE_BUFFER;
+        if zeros + 64 > lead_total {
+            break;
+        }
+    }
+    let (bytes, content) = built.ok_or("HARNESS: nothing built")?;
+    st.label(if reached { "look-alike: compressed end at the chosen buffer offset" } else { "look-alike: other buffer offset" });
+    st.label(format!("look-alike: offset class {}", ["0", "1", "2", "buffer-1", "any"][(c.target % 5) as usize]));
+    let header_len = crate::refimpl::parse_header(&bytes).map_err(|e| format!("HARNESS: {e}"))?.len;
+    let model: BTreeMap<String, Vec<u8>> = [("a".to_string(), content)].into_iter().collect();
+    let len = bytes.len();
+    let mut cuts: Vec<usize> = vec![len, len - 1];
+    for i in 1..=10usize {
+        cuts.push(header_len + (len - header_len) * i / 11);
+    }
+    let modes: &[bool] = if c.layers & 1 != 0 { &[true, false] } else { &[true] };
+    let ah = util::hash64(format!("{c:?}").as_bytes());
+    for n in cuts {
+        for &auth in modes {
+            st.eval(1);
+            st.nontrivial(ah ^ (n as u64).wrapping_mul(0x9E3779B97F4A7C15) ^ auth as u64);
+            let r = prog::repair(&bytes[..n], &keys.recipients, auth);
+            check_sound_raw(&model, len, header_len, c.layers, n, auth, &r).map_err(|e| format!("file whose bytes after a compression-block boundary read as archive records: {e}"))?;
+        }
+    }
+    st.sample(|| json!({"family": "look-alike", "flavour": FLAVOUR, "layers": prog::layers_name(c.layers), "archive_len": len, "zero_run": zeros, "boundary": c.boundary, "delta": c.delta, "offset_reached": reached}));
+    Ok(())
+}
+
 fn params() -> ProgParams {
     ProgParams { max_files: 5, max_pieces: 4, min_files: 1, align_weight: 4, ..ProgParams::default() }
 }
@@ -179,6 +304,7 @@ fn run(ctx: &Ctx) -> Report {
     let n = if SCALED { ctx.n(100, 4_000) } else { ctx.n(12, 300) };
     explore(&mut rep, ctx, "truncations", n, strat, oracle);
     explore(&mut rep, ctx, "foreign-truncations", if SCALED { ctx.n(60, 2_000) } else { ctx.n(8, 150) }, super::c06::back_case, foreign);
+    explore(&mut rep, ctx, "look-alike", if SCALED { ctx.n(400, 20_000) } else { ctx.n(24, 300) }, look_case, look_alike);
     if SCALED {
         rep.exhaustive_parts.push("every truncation length 0..=len of every generated archive, both modes".into());
     }
@@ -194,6 +320,10 @@ fn replay(_ctx: &Ctx, _stage: &str, case: &Value) -> Result<(), String> {
     if _stage == "foreign-truncations" {
         let c: super::c06::BackCase = serde_json::from_value(case.clone()).map_err(|e| format!("HARNESS: bad replay case: {e}"))?;
         return foreign(&c, &mut Stats::default());
+    }
+    if _stage == "look-alike" {
+        let c: LookCase = serde_json::from_value(case.clone()).map_err(|e| format!("HARNESS: bad replay case: {e}"))?;
+        return look_alike(&c, &mut Stats::default());
     }
     let c: Case = serde_json::from_value(case.clone()).map_err(|e| format!("HARNESS: bad replay case: {e}"))?;
     oracle(&c, &mut Stats::default())
